@@ -199,13 +199,19 @@ real_type EH_calc_eloss(CoreTrackView const* track, real_type step, bool apply_c
 __CPROVER_requires(VIEW_OK(track) && step > 0)
 __CPROVER_assigns(g_d, g_calls)
 __CPROVER_ensures(__CPROVER_return_value >= 0 && __CPROVER_return_value <= track->t->energy)
-__CPROVER_ensures(__CPROVER_return_value == track->t->energy ==> (apply_cut || track->t->post_step_action == track->t->range_action))
+/* (NOT part of this contract: "loss == E only with the cut or the range action" -- MeanELoss guarantees it only when a range-limited step still carries the range action,
+   and a boundary lying exactly at the end of the range replaces that action: the applier below must cope with a particle that stops on a boundary step) */
 __CPROVER_ensures(apply_cut ==> (__CPROVER_return_value == track->t->energy || track->t->energy - __CPROVER_return_value > track->t->lowest_electron_energy))
 __CPROVER_ensures(g_d == __CPROVER_return_value && g_calls == __CPROVER_old(g_calls) + 1)
 ;
 """
 
-ELA_RULES = Q_RULES + [
+ELA_RULES = [
+    Rule(r"CELER_ASSERT\(apply_cut \|\| deposited != particle\.energy\(\)\);", "/* NOT PROMOTED: CELER_ASSERT(apply_cut || deposited != particle.energy()) -- same corner: full loss on a boundary step */", (0, 1),
+         note="in-body assert not promoted (does not follow from the helpers' enforced contracts; see EH_calc_eloss)"),
+    Rule(r"CELER_ASSERT\(post_step_action != track\.boundary_action\(\)\);", "/* NOT PROMOTED: CELER_ASSERT(post_step_action != track.boundary_action()) -- a boundary exactly at the end of a range-limited step stops the particle on a boundary step */", (0, 1),
+         note="in-body assert not promoted (does not follow from the helpers' enforced contracts; see EH_calc_eloss)"),
+] + Q_RULES + [
     Rule(r"auto particle = track\.make_particle_view\(\);", "ParticleTrackView particle = CTV_make_particle_view(track);", 1, note="typed view handle"),
     Rule(r"auto sim = track\.make_sim_view\(\);", "SimTrackView sim = CTV_make_sim_view(track);", 1, note="typed view handle"),
     Rule(r"auto step = sim\.step_length\(\);", "real_type step = STV_step_length(&sim);", 1, note="auto -> real_type"),
@@ -222,7 +228,7 @@ ELA_RULES = Q_RULES + [
     Rule(r"phys\.has_at_rest\(\)", "PHV_has_at_rest(&phys)", "*", note="view member call"),
     Rule(r"sim\.status\(TrackStatus::killed\);", "STV_status_set(&sim, TS_killed);", "*", note="view setter"),
     Rule(r"sim\.post_step_action\(([^()]+)\);", r"STV_post_step_action_set(&sim, \1);", "*", note="view setter"),
-    Rule(r"track\.boundary_action\(\)", "CTV_boundary_action(track)", "*", note="CoreTrackView member"),
+    Rule(r"track\.(boundary_action|tracking_cut_action|propagation_limit_action)\(\)", r"CTV_\1(track)", "*", note="CoreTrackView member"),
 ]
 
 
@@ -309,7 +315,8 @@ UNITS += [
          must_have=[r"ELA_call.postcondition", r"celer_assert", r"PTV_subtract_energy.precondition", r"PSV_deposit_energy.precondition", r"EH_calc_eloss.precondition"],
          checks=["--bounds-check", "--pointer-check"],
          assumptions=["energy-loss helper EH satisfies the stated contract (for MeanELoss it is enforced in c01_mean_eloss; FluctELoss sampler not verified)",
-                      "boundary action id != range action id (distinct registered actions)"],
+                      "boundary action id != range action id (distinct registered actions)",
+                      "NOT PROMOTED: the applier's two debug asserts 'a boundary step never loses all energy' -- they rest on 'a range-limited step carries the range action', which a boundary lying exactly at the end of the range breaks; the helper contract used here does not assume it, and the postconditions (stopped => killed / at-rest) are proved without it"],
          note="ElossApplier: what leaves the particle is exactly what is deposited (same machine value d), once; 0 <= E' <= E; callee preconditions and the three in-body CELER_ASSERTs hold; stopped => killed/range or discrete at-rest"),
     Unit("c01_tracking_cut", build_tracking_cut, "h_tce", enforce="TCE_call", backend=["sat", "cvc5"], replace=["PSV_deposit_energy", "PTV_subtract_energy", "STV_status_set"], timeout=300,
          must_have=[r"TCE_call.postcondition", r"PTV_subtract_energy.precondition", r"PSV_deposit_energy.precondition"], checks=["--bounds-check", "--pointer-check"],
@@ -524,9 +531,11 @@ IAP_RULES = Q_RULES + [
     Rule(r"real_type deposition = result\.energy_deposition;", "real_type deposition = result.energy_deposition; g_sum = g_result.energy_deposition; /* ghost */", 1, note="ghost init"),
     Rule(r"auto cutoff = track\.make_cutoff_view\(\);", "CutoffView cutoff = CTV_make_cutoff_view(track);", 1, note="typed view handle"),
     Rule(r"cutoff\.apply_post_interaction\(\)", "CUT_apply_post_interaction(&cutoff)", 1, note="view call"),
-    Rule(r"for \(auto& secondary : result\.secondaries\)\s*\{",
-         "for (size_type si_ = 0; si_ < result.secondaries.size; ++si_)\n        {\n            Secondary* secondary = &result.secondaries.ptr[si_];\n" + "IAP_PER_ELEMENT" + IAP_GHOST_STEP, 1,
-         note="range-for over a Span -> index loop; ghost injected"),
+    Rule(r"for \(auto\s*(&?)\s*secondary : result\.secondaries\)\s*\{",
+         lambda m: ("for (size_type si_ = 0; si_ < result.secondaries.size; ++si_)\n        {\n            "
+                    + ("Secondary* secondary = &result.secondaries.ptr[si_];" if m.group(1) else "Secondary sec_copy_ = result.secondaries.ptr[si_]; Secondary* secondary = &sec_copy_;   /* loop variable declared BY VALUE: a copy of the element */")
+                    + "\n" + "IAP_PER_ELEMENT" + IAP_GHOST_STEP), 1,
+         note="range-for over a Span -> index loop (element by reference -> pointer into the span; by value -> a copy); ghost injected"),
     Rule(r"cutoff\.apply\(secondary\)", "g_cut[si_] /* CutoffView::apply(secondary): any predicate of the secondary, tabulated per element */", 1, note="view call -> ghost predicate table"),
     Rule(r"secondary\.energy", "secondary->energy", "*", note="reference -> pointer"),
     Rule(r"auto sec_par = track\.make_particle_view\(secondary\.particle_id\);", "ParticleView sec_par = {secondary->particle_id};", (0, 1), note="ParticleView for the secondary's id"),
